@@ -7,6 +7,7 @@ props = {json.loads(l)['id']: json.loads(l) for l in open('/verif/properties.jso
 EXTRA = {
  'c': "\n\nThis is a THIRD round. Earlier attempts mostly edited a comparison inside a validator, moved a statement inside one function, or changed one decoder helper. Make the breakage come from somewhere else, for instance: a default argument or constructor (__init__) change; an entry of a constant table / a class-level definition; a method that is newly overridden (or no longer overridden) in a subclass; a changed exception class or except clause; caching / memoisation of something that must be recomputed; a change in a module or function that the property text does not obviously point to but that the behaviour depends on. It must still be a small, innocent-looking change.",
  'd': "\n\nThis is a FOURTH round. Make the change look like a BUG FIX or a ROBUSTNESS / USABILITY IMPROVEMENT - something a reviewer would approve because it seems to make the library safer or friendlier: handling an extra error case, tolerating a malformed or slow answer, adding a fallback or an extra retry, adding a timeout, normalising an argument, supporting a new firmware quirk, better logging, freeing a resource earlier - and yet it breaks the property in some corner the 'improvement' did not think of. Do not repeat the classic moves (deleting a check, flipping a comparison, moving the fragment reset, caching commands, changing an except clause to a sibling class).",
+ 'e': "\n\nThis is a FIFTH round. This time the change must be made FAR from where a reader would look for this property: in goodwe/const.py, goodwe/model.py, goodwe/exceptions.py, goodwe/__init__.py, the base classes (Inverter in inverter.py, ProtocolCommand / ProtocolResponse / InverterProtocol in protocol.py, Sensor in sensor.py), a default argument, an import, a class attribute, the class hierarchy, __eq__/__hash__/__repr__ - or be a TWO-FILE change each half of which is harmless on its own. Avoid everything earlier rounds did: editing validators' comparisons, moving the fragment / retry resets, caching commands or sensors, changing except clauses, making RequestRejectedException a subclass, first-match lookups, prefilters in the receive callbacks.",
  'b': "\n\nThis is a SECOND round: make the change as different as you can from the most obvious way of breaking the property (for instance, avoid simply deleting a check or a guard; prefer an interaction between two pieces of code, an off-by-one in a boundary, a change of an argument, a type/sign/width confusion, or an ordering change).",
 }
 T = open('/verif/tools/seed_prompt_template.txt').read()
